@@ -760,7 +760,26 @@ fn step(rng: &mut Rng, sink: &mut Sink, w: &mut World, focus: &str) {
             let minter = if rng.chance(2, 3) { user(4) } else { caller.clone() };
             let chain = rng.pick(&[ETH.to_vec(), ETH.to_vec(), AVA.to_vec(), b"nowhere".to_vec()]).clone();
             let dm = rng.pick(&[b"0xRemoteMinter".to_vec(), b"0xOther".to_vec()]).clone();
-            match rng.below(6) {
+            match rng.below(7) {
+                6 => {
+                    // an approval outlives its author's minter role: approve, hand the role over, then use
+                    let author = user(4);
+                    w.tx(sink, &author, "approveDeployRemoteInterchainToken", 0, "-", &[user(1), salt.clone(), chain.clone(), dm.clone()]);
+                    let tid_out = w.query(sink, "interchainTokenId", &[user(1), salt.clone()]);
+                    if let Some(tid) = result_bytes(&tid_out) {
+                        let tm_out = w.query(sink, "deployedTokenManager", &[tid]);
+                        if let Some(tm) = result_bytes(&tm_out) {
+                            let heir = user(*rng.pick(&[5u8, 3, 2]));
+                            if rng.chance(3, 4) {
+                                sink.exec(&format!("tx {} {} transferMintership 0 - {}", hex::encode(&author), hex::encode(&tm), args(&[heir.clone()])));
+                            }
+                            sink.exec(&format!("query {} isMinter {}", hex::encode(&tm), args(&[author.clone()])));
+                            let named = if rng.chance(3, 4) { author.clone() } else { heir };
+                            let out = w.tx(sink, &user(1), "deployRemoteInterchainTokenWithMinter", *rng.pick(&[0u128, 9]), "-", &[salt.clone(), named, chain.clone(), dm.clone()]);
+                            w.track(&out, PendK::Props);
+                        }
+                    }
+                }
                 0 | 1 => {
                     w.tx(sink, &minter, "approveDeployRemoteInterchainToken", 0, "-", &[deployer.clone(), salt.clone(), chain.clone(), dm.clone()]);
                 }
